@@ -39,7 +39,8 @@ CHECKS = {
         'interleavings of small programs); every non-square / non-2-D shape '
         'with <=3 dims of extent <=3 must raise NonSquareTensorError with an '
         'empty collective trace on every rank.',
-        'n bounded (96 quick / 512 thorough); contents from a finite '
+        'n bounded (every n <= 96 quick / 512 thorough, plus sizes around '
+        'powers of two up to 1025 / 4096); contents from a finite '
         'catalogue; simdist stands in for gloo/NCCL.',
         '3/C14'),
     'C17': (
@@ -53,8 +54,9 @@ CHECKS = {
         'confinement, producibility by SOME least-loaded greedy run, both '
         'balance bounds, purity over depth-2 call histories and argument '
         'immutability are checked on each.',
-        'cost values outside the alphabets are not explored; worlds > 6 not '
-        'explored.',
+        'cost values outside the alphabets (small integers, a wide-range '
+        'catalogue, 2^24+i) are not explored; worlds > 6 not explored; '
+        'hash-seed independence is checked in 4 separate interpreters.',
         '3/C17'),
     'C06': (
         'bounded-exhaustive enumeration of (world, divisor, rank, colocate, '
